@@ -47,7 +47,7 @@ def run(ctx):
         for s in samples:
             ctx.sample({"world": wname, "history": s})
     L = 20
-    menu = [("k2a", [1, L], 1), ("k2m1", [L], 1), ("k2mat", [L], 0)]
+    menu = [("k2a", [1, L], 1), ("k2m1", [L], 1), ("k2mat", [L], 0), ("k2flat", [L], 0)]
     if ctx.thorough:
         menu += [("k2vec", [L], 1), ("k3a", [L], 1), ("k2eps", [L], 1), ("k2big", [2, L], 1)]
     ps = ml.e2_plans(ctx, menu, MONS)
